@@ -1,6 +1,6 @@
 (* Driver entry points for the tree-level reference semantics (C01/C15 and friends). *)
 From Verif Require Import Base.Prelude Base.Wire Model.Tree Model.Spec Model.VM Model.Writer.
-From Verif Require Import Proofs.CompileFrag Proofs.CompileLimit Proofs.CompileCfSafe.
+From Verif Require Import Proofs.CompileFrag Proofs.CompileLimit Proofs.CompileCfSafe Proofs.SpecTermProofs.
 
 (* oracle rows: rune, lower, is_word, is_eword, set-membership bits *)
 Record orow := { o_lower : Z; o_word : bool; o_eword : bool; o_sets : list bool }.
@@ -116,6 +116,17 @@ Definition run_tyck (args : list Z) : list Z :=
   | _ => bad_case
   end.
 
+(* 107: tree, has_capmap, capmap pairs, capsize (the input of 104) -> the side condition of the termination
+   theorems (Proofs/SpecTermProofs.v): [term_ok; tm_look_free; term_fuel for the empty text]
+   (term_fuel e t = that number + the text length whenever the tree has a loop) *)
+Definition run_term (args : list Z) : list Z :=
+  match (dlet t <- d_tree ; dlet hm <- d_bool ; dlet m <- d_list (d_pair d_z d_z) ; dlet cs <- d_z ;
+         d_ret (t, hm, m, cs)) args with
+  | Some ((t, _, _, _), []) =>
+      e_bool (term_ok t) ++ e_bool (tm_look_free t) ++ [Z.of_nat (term_fuel_n 0 t)]
+  | _ => bad_case
+  end.
+
 Definition run01 (leg : Z) (args : list Z) : list Z :=
   if leg =? 101 then run_find args
   else if leg =? 102 then run_write args
@@ -123,4 +134,5 @@ Definition run01 (leg : Z) (args : list Z) : list Z :=
   else if leg =? 104 then run_frag args
   else if leg =? 105 then run_mon args
   else if leg =? 106 then run_tyck args
+  else if leg =? 107 then run_term args
   else bad_case.
